@@ -52,6 +52,8 @@ M = {
                 rep("lib/lpc/program/icode.c", "prog_code = mem_block[A_PROGRAM].block + base + il->offset;", "prog_code = program_block + base + il->offset;")),
  # N9 cleanup skipped on a rare path: the include stack is not unwound when the lexer had given up (fatal lexer error)
  "n9": lambda: rep("lib/lpc/lex.c", "  while (inctop)\n    {\n      incstate_t *p;\n\n      p = inctop;\n      close (yyin_desc);\n      opt_trace (TT_COMPILE|3, \"closed fd = %d (%s)\\n\"", "  while (inctop && !lex_fatal)\n    {\n      incstate_t *p;\n\n      p = inctop;\n      close (yyin_desc);\n      opt_trace (TT_COMPILE|3, \"closed fd = %d (%s)\\n\""),
+ # N10 i_generate_node compares with the counter of the function-code block only (the distinction of the initialiser block lost)
+ "n10": lambda: rep("lib/lpc/program/icode.c", "expr->line != (current_block == A_INITIALIZER ? init_line_being_generated : line_being_generated))", "expr->line != line_being_generated)"),
 }
 M[sys.argv[1]]()
 print("applied", sys.argv[1])
